@@ -51,3 +51,25 @@ Example C12_invocations_nonvacuous :
 Proof. vm_compute. split; reflexivity. Qed.
 
 Print Assumptions C12_invocations_holds.
+
+(* A run's files stay inside its own slot: the log directory of (command, target hash) is run_path.join(command).join(hash), so the
+   statement above (which lets a run touch its own slot only) needs every ACCEPTED command name to keep that path inside the slot,
+   exactly two levels down - where `log show` looks for it.  [log_dir], [components] (std::path on Unix): Model/RunPaths.v. *)
+From Coq Require Import String.
+From MR Require Import Lib.Bytes Lib.Val Model.RunPaths Proofs.RunPathsProof.
+Definition C12_confinement_statement (accepted : str -> bool) : Prop :=
+  forall runs slot command hash, single_component slot = true -> single_component hash = true -> accepted command = true ->
+    log_dir runs slot command hash = runs ++ [slot; command; hash].
+
+Theorem C12_confinement_holds : C12_confinement_statement name_accepted.
+Proof.
+  intros runs slot command hash Hs Hh Ha. apply log_dir_in_slot; auto. apply name_accepted_iff. exact Ha.
+Qed.
+
+Example C12_confinement_nonvacuous :
+  name_accepted (bs "build"%string) = true /\ name_accepted (bs "ok.name"%string) = true /\
+  name_accepted (bs "../4/hello"%string) = false /\ name_accepted (bs "x/y"%string) = false /\ name_accepted (bs "a/"%string) = false /\
+  name_accepted (bs ".."%string) = false /\ name_accepted (bs "."%string) = false /\ name_accepted (bs "/abs"%string) = false /\ name_accepted [] = false.
+Proof. vm_compute. repeat split. Qed.
+
+Print Assumptions C12_confinement_holds.
